@@ -516,6 +516,29 @@ impl Prop for EngineAlign {
             "engine produced {} frames, the alignment law with rate {} / frame period {} gives {} (times {:?})",
             frames, rate, fp, expect_frames, times
         );
+        // the same request as a fixed-size array and as an owned vector (other ToLabels impls)
+        {
+            fn arr<const N: usize>(e: &Engine, l: &[String]) -> Option<usize> {
+                let a: [&str; N] = std::array::from_fn(|i| l[i].as_str());
+                e.generator(&a).ok().map(|g| trajectories(&g).lf0.len())
+            }
+            let via_array = match lines.len() {
+                1 => arr::<1>(&engine, &lines),
+                2 => arr::<2>(&engine, &lines),
+                3 => arr::<3>(&engine, &lines),
+                4 => arr::<4>(&engine, &lines),
+                5 => arr::<5>(&engine, &lines),
+                6 => arr::<6>(&engine, &lines),
+                7 => arr::<7>(&engine, &lines),
+                8 => arr::<8>(&engine, &lines),
+                _ => None,
+            };
+            if let Some(f) = via_array {
+                ensure!(f == frames, "engine-align-frames", "the same time-stamped lines as a fixed-size array give {} frames, as a slice {} (rate {}, frame period {})", f, frames, rate, fp);
+            }
+            let via_vec = engine.generator(lines.clone()).ok().map(|g| trajectories(&g).lf0.len());
+            ensure!(via_vec == Some(frames), "engine-align-frames", "the same time-stamped lines as Vec<String> give {:?} frames, as a slice {}", via_vec, frames);
+        }
         if c.times.iter().all(|t| t.is_none()) {
             // no annotation at all: the same utterance as already parsed labels is the same request
             // (every label falls back to its model durations instead of vanishing)
